@@ -261,11 +261,11 @@ class Formatter(FormatterInterface):
         }
         function = function_map.get(f.function, f.function)
         args = [self(arg) for arg in f.args]
+        argstr = ", ".join(args)
         if "bessel_y" in function:
-            return "scipy.special.yn"
+            return f"scipy.special.yn({argstr})"
         if "bessel_j" in function:
-            return "scipy.special.jn"
+            return f"scipy.special.jn({argstr})"
         if function == "erf":
             return f"math.erf({args[0]})"
-        argstr = ", ".join(args)
         return f"np.{function}({argstr})"
